@@ -41,8 +41,22 @@ def trigger_cases(ctx, shapes, prefix="g"):
             doc["blocks"][b] = "%s, %s %s" % (blk, phrase, TAILS[kind])
         else:
             doc["blocks"][b] = "%s %s" % (blk, phrase)
-        text = plssdoc.render_doc(doc, ctx.rng)
-        cfg = ctx.rng.choice([None, "segment", "sec_colon_cautious", "parse_qq", "parse_qq", "clean_qq,parse_qq"])
+        r = ctx.rng.random()
+        if r < 0.25 and doc["layout"] in ("TRS_desc", "S_desc_TR"):
+            # every section is rejected (no colon, colon required): the chunk is re-run as copy_all
+            text = plssdoc.render_doc(doc, ctx.rng, colons=False)
+            cfg = "sec_colon_required"
+        elif r < 0.4:
+            # a layout that does not fit the text (text stays inside the single chunk, so it is still scanned)
+            text = plssdoc.render_doc(doc, ctx.rng)
+            cfg = ctx.rng.choice(["TRS_desc", "desc_STR", "S_desc_TR", "TR_desc_S", "copy_all", "TRS_desc,sec_within"])
+        elif r < 0.5 and doc["layout"] == "TRS_desc":
+            # the only sections follow "of": continuation wording, no tract in the first pass
+            text = plssdoc.render_doc(doc, ctx.rng).replace(" Sec", " of Sec").replace("\nSec", " of Sec")
+            cfg = None
+        else:
+            text = plssdoc.render_doc(doc, ctx.rng)
+            cfg = ctx.rng.choice([None, "segment", "sec_colon_cautious", "parse_qq", "parse_qq", "clean_qq,parse_qq"])
         cases.append({"id": "%s%d" % (prefix, i), "kind": "plss", "origin": "trigger placement", "abs": {},
                       "args": {"text": text, "config": cfg, "source": "SRC-1", "post": ctx.rng.choice(POSTS),
                                "triggers": [{"kind": kind, "phrase": key}]}})
